@@ -1,10 +1,13 @@
 //! vh — the verification harness binary. It generates inputs that are valid by construction,
 //! calls the real library (built from /repo's working tree with the hook cfg on) and writes down
 //! what it saw as ndjson. It contains no oracle: every judgement is made by TLC on the records.
+mod big;
 mod gen;
 mod ops;
 mod rng;
 mod run;
+mod splay;
+mod stages;
 
 use std::collections::HashMap;
 use std::io::Write;
@@ -93,6 +96,43 @@ fn main() {
     match args[1].as_str() {
         "rec-ops" => rec_ops(&m),
         "rec-tri" => rec_tri(&m),
+        "rec-stages" => {
+            let fams: Vec<&str> = gets(&m, "family", "cx").split(',').collect();
+            stages::rec_stages(m.contains_key("f32"), &fams, geti(&m, "count", 10) as u64, geti(&m, "seed", 1) as u64, geti(&m, "kmax", 3),
+                geti(&m, "max-edges", 60) as usize, geti(&m, "matrix", 40) as usize, geti(&m, "rid0", 1) as u64)
+        }
+        "rec-stages-tri" => stages::rec_stages_tri(geti(&m, "n", 2), geti(&m, "l", 840), geti(&m, "from", 0) as usize, geti(&m, "stride", 1) as usize,
+            geti(&m, "matrix", 40) as usize, geti(&m, "rid0", 1) as u64),
+        "replay-pi" => {
+            if m.contains_key("f32") {
+                stages::replay_pi::<f32>(gets(&m, "file", ""))
+            } else {
+                stages::replay_pi::<f64>(gets(&m, "file", ""))
+            }
+        }
+        "splay-replay" => splay::replay_graph(gets(&m, "graph", "")),
+        "splay-hist" => splay::histories(geti(&m, "runs", 10) as u64, geti(&m, "len", 60) as usize, geti(&m, "keys", 6), geti(&m, "seed", 1) as u64),
+        "stack" => {
+            let sc = gets(&m, "scenario", "tree:asc:drop").to_string();
+            let n = geti(&m, "n", 1000) as usize;
+            let kb = geti(&m, "stack-kb", 8192) as usize;
+            let parts: Vec<String> = sc.split(':').map(|s| s.to_string()).collect();
+            let (p1, p2) = (parts[1].clone(), parts[2].clone());
+            let tree = parts[0] == "tree";
+            let h = std::thread::Builder::new().spawn(move || {
+                big::measure(kb * 1024, move || if tree { (big::tree_scenario(n, &p1, &p2), 0, 0) } else { big::bool_scenario(n, &p1, &p2) })
+            });
+            match h.expect("spawn").join() {
+                Ok((hwm, (a, b, c))) => println!(
+                    "{{\"ev\":\"stack\",\"scenario\":\"{}\",\"n\":{},\"stack_kb\":{},\"hwm\":{},\"exit\":\"ok\",\"size\":{},\"popped\":{},\"polys\":{}}}",
+                    sc, n, kb, hwm, a, b, c
+                ),
+                Err(_) => println!(
+                    "{{\"ev\":\"stack\",\"scenario\":\"{}\",\"n\":{},\"stack_kb\":{},\"hwm\":0,\"exit\":\"panic\",\"size\":0,\"popped\":0,\"polys\":0}}",
+                    sc, n, kb
+                ),
+            }
+        }
         "rerun" => {
             let text = std::fs::read_to_string(gets(&m, "file", "")).expect("read file");
             let mut sid = geti(&m, "sid0", 1) as u64;
